@@ -463,15 +463,19 @@ def run(case):
           ln = cfgtext.chunk_line(files[fn], ci)
           if depth == len(chain) - 1:
             ln = line
-          if fn == case['root'] and root_is_string:
-            needle = 'In bindings string line %d\n' % ln
-          else:
-            needle = 'In file "%s", line %d\n' % (fn, ln)
-          if msg.count(needle) != 1:
+          # Format-agnostic: some line of the message must name this level's
+          # file (or 'bindings string') together with the line number; and it
+          # must do so exactly once.
+          fname = 'bindings string' if (fn == case['root'] and
+                                        root_is_string) else fn
+          pat = re.compile(r'(?<![\w.])%d(?![\w.])' % ln)
+          hits = [l for l in msg.split('\n')
+                  if fname in l and pat.search(l.replace(fname, ''))]
+          if len(hits) != 1:
             v('C16.error_location', [kind, 'level-%d-of-%d' % (depth, len(chain))],
-              '%s: message names %r %d times (expected once per include '
-              'level).\n%s' % (where, needle.strip(), msg.count(needle),
-                               probes.scrub(msg)[:600]))
+              '%s: the message names %r line %d in %d lines (expected once per '
+              'include level).\n%s' % (where, fname, ln, len(hits),
+                                       probes.scrub(msg)[:600]))
             break
     # provenance of what was applied
     try:
